@@ -104,7 +104,8 @@ def instances(env, cfg, family, B, seed):
         if name in ("cvrp", "sdvrp"):
             # dyadic demands k/32 chosen so that many subsets sum EXACTLY to capacity 1.0
             k = torch.randint(1, 17, (B, n), generator=g)
-            k[:, : n // 2] = torch.tensor([16, 8, 8, 4, 4, 2, 2, 16, 8, 8][: n // 2])
+            pat = torch.tensor([16, 8, 8, 4, 4, 2, 2, 16, 8, 8])
+            k[:, : n // 2] = pat.repeat(n // 20 + 1)[: n // 2]
             td["demand"] = k.float() / 32.0
             grid = torch.randint(0, 9, (B, n + 1, 2), generator=g).float() / 8.0
             td["locs"], td["depot"] = grid[:, 1:], grid[:, 0]
